@@ -10,7 +10,6 @@ from engine import Prop, fbits, bitsf, close, err_kind
 from props.c20 import fr, seg_d2, segments, degenerate
 
 TOL = 1e-9
-OVERFLOW_JUMP = 7000.0   # exp(-(dtopo - dgeom)/10) overflows when dgeom - dtopo > ~7097
 
 
 def fsqrt(x):
@@ -119,7 +118,7 @@ class P(Prop):
         for k in range(40 if tier == "thorough" else 6):
             c = self.random_case(rng, "grid")
             c["track"] = c["track"][:2] + [[c["track"][0][0] + 9000.0, c["track"][0][1] + 500.0], [c["track"][0][0] + 19000.0, c["track"][0][1]]]
-            c["stream"] = "farjump"
+            c["stream"] = "farjump"      # regression stream of fix 8080b8c (the transition likelihood overflowed on jumps > ~7.1 km)
             out.append(c)
         # sessions: collections of several tracks, several calls on the same objects, re-matched tracks
         for k in range(6000 if tier == "thorough" else 900):
@@ -1022,12 +1021,14 @@ class P(Prop):
                     if x1 == x2 and y1 != y2 and q[0] == x1 and min(y1, y2) <= (y2 - y1) <= max(y1, y2):
                         return "vertical-segment-zerodiv"
             return None
-        if impl_out["err"] == "err:OverflowError" and len(cand) == len(case["track"]):
-            # exp(-(dtopo - dgeom) / 10) in the transition model: two consecutive observations farther apart than ~7.1 km
-            t = case["track"]
-            for k in range(len(t) - 1):
-                if math.hypot(t[k + 1][0] - t[k][0], t[k + 1][1] - t[k][1]) > OVERFLOW_JUMP - 2 * case["radius"]:
-                    return "far-jump-overflow"
+        if impl_out["err"] == "err:UnboundLocalError" and cand and cand[-1]:
+            # proj_polyligne skips every segment of a geometry all of whose vertices coincide and then reads xproj, which
+            # was never assigned: a zero-length edge among the candidates of the observation being processed
+            for elem in cand[-1]:
+                g = case["geoms"][elem] if 0 <= elem < len(case["geoms"]) else []
+                if len(g) >= 2 and all(abs(g[j][0] - g[j + 1][0]) + abs(g[j][1] - g[j + 1][1]) < 1e-16 for j in range(len(g) - 1)):
+                    return "zero-length-edge-unbound"
+            return None
         return None
 
     # ------------------------------------------------------------------ shrinking / search
